@@ -221,7 +221,7 @@ def unicode_range(token):
 @descriptor('counter-style')
 def system(tokens):
     """``system`` descriptor validation."""
-    if len(tokens) > 2:
+    if not 1 <= len(tokens) <= 2:
         return
 
     keyword = get_keyword(tokens[0])
